@@ -142,6 +142,19 @@ Theorem C12_add_extends_the_inherited_dictionary :
                  (alias_of p sub) sub).
 Proof. exact setup_add_self. Qed.
 
+(** The instance counter of a class is kept by [instcount_owner] = the last class of its MRO that
+    carries the same alias.  A class of the MRO carrying that alias has the same owner: base and
+    derived classes with one alias share one counter, whatever plain mixins (before or after the
+    layer base) or differently-aliased classes sit between them - which is what makes the
+    per-alias numbering of the model (and [C12_live_names_unique]) apply to such hierarchies;
+    [counter_ok] is evaluated on every generated case. *)
+Theorem C12_counter_owner_shared :
+  forall fuel p c1 c2,
+    In c2 (mro_ids fuel p c1) -> alias_of p c2 = alias_of p c1 ->
+    exists fuel', owner_in p (alias_of p c1) (mro_ids fuel p c1) c1
+                = owner_in p (alias_of p c2) (mro_ids fuel' p c2) c2.
+Proof. exact owner_shared. Qed.
+
 (** Non-vacuity for inheritance: base class (methods 0: default of source 1, 1: tag 1 of source 1),
     derived class adds method 2 (tag 2 of source 1) and method 3 (new source 5) and overrides
     method 1 without decorators: tag 2 -> 2, source 5 -> 3, tag 1 -> falls back to 0. *)
